@@ -9,7 +9,7 @@ namespace C35Drv
 def strBytes (s : String) : Bytes := s.toUTF8.toList
 
 def tableOf (es : List ElaVerif.Gen.C35.Entry) : List (Bytes × Nat) :=
-  es.map fun e => (strBytes e.caseCmd, e.max)
+  es.map fun e => (e.caseBytes, e.max)
 
 /-- the command switches of a network stack, base switch first (first match wins). -/
 def stack? : String → Option (List (Bytes × Nat))
